@@ -108,6 +108,7 @@ open Ezpz
 #check @Text.text_analysis_ok_then_plain_ok
 #check @Text.withConfig_of_noMetadata_ok             -- solve_with_config reports what solve_no_metadata computed
 #check @Text.text_methods_shape                      -- call structure regenerated from executor.rs
+#check @Text.text_methods_never_panic                -- none of the four methods panics (total LU / SVD oracles)
 
 /-! ### C11 — a satisfied configuration is left untouched -/
 #check @C11.converged_guess_untouched
